@@ -5,6 +5,7 @@
 //!   rvmc worker <ID> <tier> <lo> <hi> <idxfile>      (internal)
 
 mod c08;
+mod c17;
 mod driver;
 mod imp;
 mod model;
@@ -23,6 +24,7 @@ pub fn profile() -> &'static str {
 fn property(id: &str) -> Option<Box<dyn Property>> {
     Some(match id {
         "C08" => Box::new(c08::C08::new()),
+        "C17" => Box::new(c17::C17::new()),
         _ => return None,
     })
 }
